@@ -93,9 +93,25 @@ def rule_who(R):
     R.floor("who/next-ping", m, 3, "stores to next_ping")
     # note_outbound_activity: next_ping = keepalive_send_interval().map(|i| now + i)
     v = [x for x in field_stores(f, "next_ping") if x[0].name == noa.name]
-    ok = len(v) == 1 and is_call(peel(v[0][2]), "Option::<T>::map", "map") and is_call(peel(peel(v[0][2])[3][0]), "keepalive_send_interval")
-    cl = [c for c in f.children(noa) if c.kind == "closure"]
-    ok = ok and len(cl) == 1 and is_call(peel(cl[0].local_term(0)), "add") and peel(peel(cl[0].local_term(0))[3][1]) == ("param", "interval")
+    # None when pings are off, otherwise Some(now + interval): the stored value's alternatives, whatever the spelling
+    ok = len(v) == 1
+    if ok:
+        alts = phi_alts(peel(v[0][2]))
+        some = [a for a in alts if a[0] == "agg" and a[2] == "core::option::Option" and a[3] == "Some"]
+        none = [a for a in alts if a[0] == "agg" and a[2] == "core::option::Option" and a[3] == "None"]
+
+        def now_plus_interval(t):
+            t = peel(t)
+            if t[0] == "bin" and t[1].startswith("Add"):
+                ops_ = [peel(t[2]), peel(t[3])]
+            elif is_call(t, "Add::add", "add") and len(t[3]) == 2:
+                ops_ = [peel(t[3][0]), peel(t[3][1])]
+            else:
+                return False
+            has_now = any(o == ("param", "now") for o in ops_)
+            has_int = any(chain(o)[1][-2:] == ["@Some", "0"] and is_call(peel(chain(o)[0]), "keepalive_send_interval") for o in ops_)
+            return has_now and has_int
+        ok = len(some) >= 1 and len(some) + len(none) == len(alts) and all(now_plus_interval(a[5][0]) for a in some)
     R.ob("who/next-ping-value", ok, "note_outbound_activity sets next_ping = now + keepalive_send_interval (None when pings are off)", where=noa.span)
 
 
@@ -117,24 +133,50 @@ def rule_due(R):
     R.ob("due/conjuncts", need <= state,
          "the test consults the response deadline, the next-ping deadline and the control queue (reads %s)" % sorted(n for a, n in state & need),
          where=sq_b.span)
-    # shape: false unless ping_timeout.is_none() and next_ping.is_some_and(now >= d) ; value = !has_pending_pingreq
-    ok = False
-    sw1 = sw2 = None
-    for bb in sq.switches:
-        si = sq.switch_info(bb)
-        s = peel(si["subject"])
-        if is_call(s, "is_none") and chain(s[3][0])[1][-1:] == ["ping_timeout"]:
-            sw1 = si
-        if is_call(s, "is_some_and") and chain(s[3][0])[1][-1:] == ["next_ping"]:
-            sw2 = si
-    cl = [c for c in f.children(sq_b) if c.kind == "closure"]
-    okcl = len(cl) == 1 and is_call(peel(cl[0].local_term(0)), "PartialOrd::ge", "ge") and \
-        peel(peel(cl[0].local_term(0))[3][0])[1] in ("_ref__now", "now") and peel(peel(cl[0].local_term(0))[3][1]) == ("param", "deadline")
-    alts = phi_alts(sq.local_term(0))
-    okv = any(a[0] == "un" and a[1] == "Not" and is_call(peel(a[2]), "has_pending_pingreq") for a in alts) and \
-        all((a[0] == "const" and a[2] == 0) or a[0] == "un" for a in alts)
-    R.ob("due/shape", sw1 is not None and sw2 is not None and okcl and okv,
-         "a PINGREQ is due iff no response is outstanding, now >= next_ping, and none is queued already", where=sq_b.span)
+    # shape: the truth table over (ping_timeout, next_ping) present / absent, read off the code whatever its spelling
+    # (&&-chain of combinators, match, if-let): false unless no response is outstanding and a ping deadline exists; then
+    # true only where `now >= next_ping` was tested and holds, and the value is `!has_pending_pingreq()`
+    from .. import optsem, panics
+
+    def is_false(o):
+        return bool(o["values"]) and all(v[0] == "const" and v[2] == 0 for v in o["values"])
+
+    def is_due_cmp(t):
+        c = panics.canon_cmp(t)
+        return c is not None and c[0] == "<=" and "next_ping" in c[1] and c[2].replace("&", "").replace("*", "") == "now"
+
+    def not_pending(t):
+        t = peel(t)
+        return t[0] == "un" and t[1] == "Not" and is_call(peel(t[2]), "has_pending_pingreq")
+
+    ok = True
+    why = ""
+    for pt in ("None", "Some"):
+        for np_ in ("None", "Some"):
+            outs = optsem.decide(sq, {"ping_timeout": pt, "next_ping": np_})
+            if not outs:
+                ok, why = False, "no outcome extracted for ping_timeout=%s next_ping=%s" % (pt, np_)
+                continue
+            if (pt, np_) != ("None", "Some"):
+                if not all(is_false(o) for o in outs):
+                    ok, why = False, "not false for ping_timeout=%s next_ping=%s" % (pt, np_)
+                continue
+            pos = [o for o in outs if not is_false(o)]
+            if not pos:
+                ok, why = False, "never due"
+            for o in pos:
+                tested = any(is_due_cmp(t) for t in o["true"] if isinstance(t, tuple))
+                val_ok = all(not_pending(v) for v in o["values"]) or \
+                    (all(v[0] == "const" and v[2] == 1 for v in o["values"]) and
+                     any(is_call(peel(t), "has_pending_pingreq") for t in o["false"] if isinstance(t, tuple)))
+                if not (tested and val_ok):
+                    ok, why = False, "due on a path without `now >= next_ping` or without `!has_pending_pingreq()`: %s" % [show(v) for v in o["values"]]
+            for o in outs:
+                if any(is_due_cmp(t) for t in o["false"] if isinstance(t, tuple)) and not is_false(o):
+                    ok, why = False, "due although now < next_ping"
+    R.ob("due/shape", ok,
+         "a PINGREQ is due iff no response is outstanding, now >= next_ping, and none is queued already%s" % ((" — " + why) if why else ""),
+         where=sq_b.span)
     try:
         hp = roles.method(f, OUTBOUND, "has_pending_pingreq")
     except AnchorLost:
@@ -204,38 +246,57 @@ def rule_refresh(R):
     R.floor("refresh", n, 2, "transport flush sites outside disconnect_with")
 
 
+def _none_never_expires(code, swo, sw):
+    """path-sensitive: no feasible path from the None edge of the presence test takes the true edge of the comparison"""
+    te = sw["edges"].get(True)
+    for lf in paths.explore(code, swo["edges"]["None"], lambda t: False, lambda b, x: False, stop_pred=lambda b, x: x == te, max_paths=2000):
+        if lf["kind"] in ("stop", "limit"):
+            return False
+    return True
+
+
 def rule_check(R):
     f = R.f
     cm = roles.conn_methods(f)
     b, code = cm["service"]
     R.touch(code)
-    sw = None
-    for bb in code.switches:
+    # the expiry test in its canonical reading: a switch on `ping_timeout` (present?) and a switch on `payload <= now`
+    # (every spelling -- .map(..).unwrap_or(false), is_some_and, match, if let -- reads as these two after the normal form)
+    from .. import panics
+    sw = None       # the comparison
+    swo = None      # the presence test
+    for bb in sorted(code.switches):
+        if bb not in code.reachable:
+            continue
         si = code.switch_info(bb)
-        if any(x[0] == "field" and x[2] == "ping_timeout" for x in walk(si["subject"])):
-            sw = si
+        if si["enum"] == "core::option::Option" and chain(si["subject"])[1][-1:] == ["ping_timeout"]:
+            swo = si
+        for alt in phi_alts(si["subject"]):
+            c = panics.canon_cmp(alt)
+            if c is not None and c[0] == "<=" and "ping_timeout" in c[1] and c[2].replace("&", "").replace("*", "") == "now" \
+                    and si["edges"].get(True) is not None and si["edges"].get(False) is not None:
+                sw = si
     ok = sw is not None
     if ok:
-        cl = [c for c in f.children(code) if c.kind == "closure"]
-        okc = any(is_call(peel(c.local_term(0)), "PartialOrd::ge", "ge") and c.arg_count >= 2 and
-                  peel(peel(c.local_term(0))[3][1]) == ("param", c.param_name(2)) for c in cl)
-        # absent deadline means "not expired": `.map(f).unwrap_or(false)`, `.is_some_and(f)`, `.map_or(false, f)`
-        s = peel(sw["subject"])
-        okd = (is_call(s, "unwrap_or") and s[3][1][0] == "const" and s[3][1][2] == 0) or \
-            is_call(s, "Option::<T>::is_some_and", "is_some_and") or \
-            (is_call(s, "Option::<T>::map_or", "map_or") and s[3][1][0] == "const" and s[3][1][2] == 0)
         lat = roles.latch_fns(f)
         steps = [c for c in code.calls.values() if c.bb in code.reachable and (f.call_does_io(c) or roles.call_writes_state(f, c))
                  and not any(t in lat for t in f.call_targets(c))]
         fe = sw["edges"].get(False)
-        okdom = fe is not None and all(code.must_pass([0], [c.bb], via_edges=[(sw["bb"], fe)])[0] for c in steps) and bool(steps)
+        via = [(sw["bb"], fe)]
+        if swo is not None and swo["edges"].get("None") is not None:
+            via.append((swo["bb"], swo["edges"]["None"]))   # absent deadline = not expired
+        okdom = all(code.must_pass([0], [c.bb], via_edges=via)[0] for c in steps) and bool(steps)
+        # absent deadline never takes the expiry branch
         te = sw["edges"].get(True)
+        okabs = swo is None or swo["edges"].get("None") is None or \
+            code.must_pass([swo["edges"]["None"]], [te], via_edges=[(sw["bb"], fe)])[0] or te not in code.reach([swo["edges"]["None"]]) or \
+            _none_never_expires(code, swo, sw)
         latch = [bb for bb, c in code.calls.items() if roles.call_latches(f, c)]
-        okl = te is not None and code.must_pass([te], code.returns, via_blocks=latch)[0]
+        okl = code.must_pass([te], code.returns, via_blocks=latch)[0]
         vals = [code.rvalue_term(s2["rv"]) for x in code.reach([te], avoid=[fe]) for s2 in code.blocks[x]["stmts"]
-                if s2["k"] == "assign" and s2["dst"]["l"] == 0] if te is not None else []
+                if s2["k"] == "assign" and s2["dst"]["l"] == 0]
         okv = bool(vals) and all("Disconnected" in show(v) for v in vals)
-        ok = okc and okd and okdom and okl and okv
+        ok = okdom and okabs and okl and okv
     R.ob("check/expiry-first", ok,
          "service() tests `now >= ping_timeout` (absent = not expired) before any outbound work; on expiry it latches the "
          "handle and returns Disconnected", where=b.span)
